@@ -261,7 +261,7 @@ fn probe_ictx() -> InterpreterContext {
     }
     let mut fn_map = std::collections::HashMap::new();
     fn_map.insert("p_0".to_string(), 0usize);
-    InterpreterContext { fn_map, label_map, call_stack: vec![0] }
+    InterpreterContext { fn_map, label_map, call_stack: vec![0], ..Default::default() }
 }
 
 fn answer_interp(p: &Interpreter, line: &str, regs: &[u16]) -> String {
